@@ -162,9 +162,9 @@ class Visibility(Enum):
             >>> Visibility.from_value("most")
             Visibility.MOST
         """
-        for k, v in cls.__members__.items():
+        for _, v in cls.__members__.items():
             if v == name:
-                return k
+                return v
         return cls.from_alias(name)
 
 
@@ -195,6 +195,7 @@ class SensorModality(Enum):
             >>> SensorModality.from_value("camera")
             SensorModality.CAMERA
         """
-        for k, v in cls.__members__.items():
+        for _, v in cls.__members__.items():
             if v == name:
-                return k
+                return v
+        raise ValueError(f"Unexpected value: {name}")
